@@ -61,8 +61,9 @@ type laneState struct {
 	keepBlock bool
 	peerRST   bool // the peer itself reset the lane's stream
 	// sender-side flow control for this stream (peer → server)
-	sendWin int64
-	opsSent int
+	sendWin  int64
+	opsSent  int
+	openedAt int // scheduler step at which the lane's stream was opened
 }
 
 // PeerStream is what the peer has observed on one stream of the server's output.
@@ -128,20 +129,21 @@ type SrvWorld struct {
 	srvMaxFrame int64
 
 	// peer as receiver
-	Frames       []*Frame
-	Streams      map[uint32]*PeerStream
-	streamOrder  []uint32
-	GoAways      []*Frame
-	SettingsAcks int
-	SettingsSeen int
-	PingAcks     int
-	PeerEOF      bool // peer saw the server close
-	stallS2C     bool
-	connRecv     int64
-	connGranted  int64
-	peerInitWin  int64
-	winUpdates   []*Frame
-	contStream   uint32 // server-side header block open on this stream (CONTINUATION expected)
+	Frames            []*Frame
+	Streams           map[uint32]*PeerStream
+	streamOrder       []uint32
+	EndedBeforeGoAway map[uint32]bool // streams on which the server's END_STREAM arrived before its first GOAWAY
+	GoAways           []*Frame
+	SettingsAcks      int
+	SettingsSeen      int
+	PingAcks          int
+	PeerEOF           bool // peer saw the server close
+	stallS2C          bool
+	connRecv          int64
+	connGranted       int64
+	peerInitWin       int64
+	winUpdates        []*Frame
+	contStream        uint32 // server-side header block open on this stream (CONTINUATION expected)
 
 	// handlers
 	hev      chan handlerEvent
@@ -590,6 +592,14 @@ func (w *SrvWorld) onPeerFrame(f *Frame) {
 			}
 		}
 	case FGoAway:
+		if len(w.GoAways) == 0 {
+			w.EndedBeforeGoAway = map[uint32]bool{}
+			for id, ps := range w.Streams {
+				if ps.EndStreams > 0 {
+					w.EndedBeforeGoAway[id] = true
+				}
+			}
+		}
 		w.GoAways = append(w.GoAways, f)
 	case FHeaders, FContinuation:
 		ps := w.stream(f.Stream)
@@ -883,6 +893,7 @@ func (w *SrvWorld) laneSend(l *laneState) {
 	w.opsSent++
 	if l.id == 0 && l.lane.OpensStream && op.StreamRef == 0 && op.LaneRef == 0 && op.Kind != "settings" && op.Kind != "ping" && op.Kind != "goaway" {
 		l.id = w.nextID
+		l.openedAt = w.sim.Steps
 		w.nextID += 2
 		l.sendWin = w.srvInitWin
 		if ps := w.Streams[l.id]; ps != nil {
@@ -1086,7 +1097,9 @@ func (w *SrvWorld) EnvActions() []Action {
 // drainGrantAction tops the peer's receive windows up (connection, then every unfinished stream).
 func (w *SrvWorld) drainGrantAction() *Action {
 	const target = int64(1 << 28)
-	if avail := w.connGranted - w.connRecv; avail < target/2 {
+	// only what is needed: a sender that stays parked although both of its windows are open is the defect the drain
+	// phase is there to expose, and a grant it did not need would wake it up
+	if avail := w.connGranted - w.connRecv; avail <= 0 {
 		inc := target - avail
 		return &Action{Name: fmt.Sprintf("drain-grant conn +%d", inc), Env: true, Run: func() {
 			w.connGranted += inc
@@ -1114,7 +1127,7 @@ func (w *SrvWorld) drainGrantAction() *Action {
 		}
 		avail := lo + w.streamWupd[l.id] - recv
 		hi := w.permissiveInit() + w.streamWupd[l.id] - recv
-		if avail < target/2 && hi < target {
+		if avail <= 0 && hi < target {
 			inc := target - hi
 			id := l.id
 			return &Action{Name: fmt.Sprintf("drain-grant stream %d +%d", id, inc), Env: true, Run: func() {
@@ -1200,4 +1213,25 @@ func (w *SrvWorld) LanesDone() bool {
 		}
 	}
 	return true
+}
+
+// overCommitted reports whether lane l opened its stream while the peer, by what it had seen by then, already had
+// MaxConcurrentStreams streams open: the server is then entitled to refuse it (RFC 7540 5.1.2), whichever lane the
+// generator meant to be the one over the limit.
+func (w *SrvWorld) overCommitted(l *laneState) bool {
+	limit := w.plan.Srv.MaxConcurrentStreams
+	if limit <= 0 || l.id == 0 {
+		return false
+	}
+	n := 0
+	for _, o := range w.lanes {
+		if o == l || o.id == 0 || o.id >= l.id || !o.lane.OpensStream {
+			continue
+		}
+		if ps := w.Streams[o.id]; ps != nil && (ps.EndStreams > 0 || len(ps.RST) > 0) && ps.DoneAt <= l.openedAt {
+			continue
+		}
+		n++
+	}
+	return n >= limit
 }
